@@ -12,7 +12,7 @@ use refimpl as r;
 use refimpl::{Mode, MODES};
 use serde_json::json;
 
-const RULE: &str = "keys from seeds in every provenance (sk: generated, round-tripped; pk: generated, round-tripped, derived from either sk) x message/context shapes (rate/block boundaries, empty, prefix-imitating) x 4 modes x rnd classes; signature must be Ok, verify true under all four pk provenances, reference Verify true, RNG log = one try_fill_bytes(32). Non-trivial = distinct (set, key, sk provenance, mode, message, ctx, rnd) tuples whose signature was produced and checked under all pk provenances. A second pass signs many random (msg, rnd) pairs per set and re-checks the extremes (largest hint weight, largest |z|, most rejection iterations).";
+const RULE: &str = "keys from seeds (fixed, random, and rare seeds whose t = A*s1+s2 wraps before reduction, found by an instrumented-reference scan) in every provenance (sk: generated, round-tripped; pk: generated, round-tripped, derived from either sk) x message/context shapes (rate/block boundaries, empty, prefix-imitating) x 4 modes x rnd classes; signature must be Ok, verify true under all four pk provenances, reference Verify true, RNG log = one try_fill_bytes(32). Non-trivial = distinct (set, key, sk provenance, mode, message, ctx, rnd) tuples whose signature was produced and checked under all pk provenances. A second pass signs many random (msg, rnd) pairs per set and re-checks the extremes (largest hint weight, largest |z|, most rejection iterations).";
 
 pub fn run(ctx: &Ctx) -> StageOut {
     let mut acc = Acc::new();
@@ -107,16 +107,23 @@ fn check_one<S: PS>(
 
 fn run_set<S: PS>(ctx: &Ctx) -> Acc {
     let p = S::p();
-    let n_seeds = ctx.budget(6, 48) as usize;
+    let rare: Vec<[u8; 32]> = rare_keygen_seeds(ctx, p, ctx.budget(24_000, 400_000) as usize).into_iter().filter(|r| r.tags.iter().any(|t| t.starts_with("t-wrap"))).map(|r| r.xi).take(12).collect();
+    let n_plain = ctx.budget(6, 48) as usize;
+    let n_seeds = n_plain + rare.len();
     let thorough = ctx.thorough();
     // ---- pass 1: shapes x modes x provenances -------------------------------------------------
     let accs = par_map(n_seeds, |si| {
         let mut acc = Acc::new();
         let mut g = Prng::derive(ctx.seed, &format!("c01-{}", p.name), si as u64);
-        let xi = match si {
-            0 => [0u8; 32],
-            1 => [0xFFu8; 32],
-            _ => g.arr32(),
+        let xi = if si >= n_plain {
+            acc.count("rare_wrap_seed_keys", 1);
+            rare[si - n_plain]
+        } else {
+            match si {
+                0 => [0u8; 32],
+                1 => [0xFFu8; 32],
+                _ => g.arr32(),
+            }
         };
         let kb = match KeyBundle::<S>::new(xi) {
             Ok(k) => k,
